@@ -300,7 +300,11 @@ class Models:
     def key_lt(self, ex, a, b):
         """z3 Bool: a < b in Ord order (integers, byte strings lexicographically)"""
         a, b = deref(a), deref(b)
+        while isinstance(a, Struct) and isinstance(b, Struct) and len(a.f) == 1 and len(b.f) == 1:
+            a, b = deref(a.f[0]), deref(b.f[0])              # newtype wrappers compare as their content
         if isinstance(a, Sc) and isinstance(b, Sc):
+            if a.ty not in INT_W:
+                return z3.ULT(a.t, b.t)                       # opaque fixed-width keys (hash values): big-endian byte order
             return ex.binop('Lt', a, b).t
         if isinstance(a, Enum) and isinstance(b, Enum) and not a.f and not b.f:
             # derived Ord of a fieldless enum: declaration order
@@ -367,7 +371,7 @@ class Models:
                 return self.mk_iter([Struct([Ptr(Cell(t.entries[i][0])), Ptr(t.entries[i][1])]) for i in order])
             if isinstance(t, SetM):
                 self.set_resolve(ex, t)
-                order = self.iteration_order(ex, len(t.items), t.ordered)
+                order = self.iteration_order(ex, len(t.items), t.ordered, list(t.items))
                 return self.mk_iter([Ptr(Cell(t.items[i])) for i in order])
             if isinstance(t, Enum):     # &Option<T>
                 ex.force(t)
@@ -382,7 +386,7 @@ class Models:
             return self.mk_iter([Struct([v.entries[i][0], v.entries[i][1].v]) for i in order])
         if isinstance(v, SetM):
             self.set_resolve(ex, v)
-            order = self.iteration_order(ex, len(v.items), v.ordered)
+            order = self.iteration_order(ex, len(v.items), v.ordered, list(v.items))
             return self.mk_iter([v.items[i] for i in order])
         if isinstance(v, Enum):
             ex.force(v)
@@ -1193,6 +1197,20 @@ class Models:
                     data.extend(sep.data)
                 data.extend(x.data)
             return StrV(list(data), None)
+
+        @M.rx(r'^(?:std::iter::|core::iter::)?successors::<', 'iter::successors')
+        def _successors(ex, m, args, callee, dest):
+            st = {'cur': args[0]}
+            f = args[1]
+
+            def nxt(ex_):
+                cur = ex_.force(st['cur']) if isinstance(st['cur'], Enum) else st['cur']
+                if cur.variant == 'None':
+                    return cur
+                item = cur.f[0]
+                st['cur'] = ex_.call_value(f, [Ptr(Cell(item))])
+                return Some(item)
+            return IterM(nxt, 'successors')
 
         # ---------- iterators
         @M.trait('IntoIterator', 'into_iter')
